@@ -16,7 +16,7 @@ GOENV = dict(os.environ, GOFLAGS='-mod=mod', GOPROXY='off', GOTOOLCHAIN='local',
 TRUSTED_BASE = [
     'Coq 8.16.1 kernel (coqc, full .vo build; vm_compute; no native_compute); coqchk in the thorough tier',
     'Coq standard library, std++ 1.8.0 and coq-record-update (RecordUpdate: record setters used by Rpc.v; definitions only) as compiled on this image; no axioms declared by this development',
-    'finite invariants (CliFinish, CtorGate, Rpc components: 122 880 client and 2 x 1 638 400 server control states) are evaluated with vm_compute on every state and lifted by forallb_forall lemmas; coqchk re-checks these computations with its own virtual machine',
+    'finite invariants (CliFinish, CtorGate, Rpc components: 2 457 600 client and 2 x 1 638 400 server control states) are evaluated with vm_compute on every state and lifted by forallb_forall lemmas; coqchk re-checks these computations with its own virtual machine',
     'extraction: ExtrOcamlBasic only (bool, option, unit, list, prod, sumbool, sumor, andb, orb); N/Z/positive/nat stay Coq datatypes; OCaml 4.13.1',
     'validator/driver.ml (hand-written OCaml glue: line parsing, number/string conversion, printing)',
     'Go harness under /verif/harness (generators, drivers, in-memory carrier, probes), testing/synctest, the Go race detector',
